@@ -812,6 +812,25 @@ void KMeansppCenters(matrix *m,
     for(i = 0; i < D->size; i++){
       D_square->data[i] = square(D->data[i]);
     }
+    /* All the remaining points coincide with an already selected centre
+     * (duplicated objects, more centres than distinct points): the selection
+     * probabilities are all zero and the sampling below would never accept a
+     * point. Take the first object not yet selected. */
+    A = 0.f;
+    for(i = 0; i < D_square->size; i++){
+      A += D_square->data[i];
+    }
+    if(!(A > 0.f)){
+      for(i = 0; i < m->row; i++){
+        if(UIVectorHasValue(selections, i) == 1){
+          UIVectorAppend(selections, i);
+          break;
+        }
+      }
+      q--;
+      continue;
+    }
+
     /* Step 4 */
     A = 0.f;
     B = 0.f;
